@@ -500,6 +500,8 @@ class Prov:
             return
         # 2. crate-local callee with a body
         cb = self.facts.body(t.get("res") or "") or self.facts.body(t.get("def") or "")
+        if t.get("opaque_result"):
+            cb = None       # the caller asked for this call's result as an origin of its own (a cut point)
         if cb is not None and cb.cache_id not in self._inprogress:
             cenv = self.env(cb)
             for q, labs in list(cenv.env.get(0, {}).items()):
